@@ -56,7 +56,10 @@ impl Line {
         }
         let mut s: String = self.tokens.iter().map(|s| s.to_string()).collect();
         while let Some((col, num)) = visitor.replace.pop() {
-            s.replace_range(col, &format!("{}", num));
+            // columns count characters, replace_range wants byte offsets
+            let byte_at = |ch: usize| s.char_indices().nth(ch).map_or(s.len(), |(i, _)| i);
+            let range = byte_at(col.start)..byte_at(col.end);
+            s.replace_range(range, &format!("{}", num));
         }
         let (_, tokens) = lex(&s);
         Line { number, tokens }
